@@ -123,6 +123,7 @@ func runSource(src string, opt RunOpt) Obs {
 	if len(errs) > 0 {
 		return Obs{ParseErr: true, ErrMsg: strings.Join(errs, "; "), Val: J{"t": "nil"}}
 	}
+	markCurrent(crashMark{Src: src, Opt: opt})
 	s, buf := newState(opt)
 	return evalProgram(s, buf, prog, opt)
 }
